@@ -12,6 +12,7 @@ CONSTANTS
   EmptyRaises = FALSE
   Emit = FALSE
   Objs = {1, 2}
+  OFields = {"src"}
   Rich = 0
   SharedMemo = TRUE
   EmitObj = FALSE
@@ -21,5 +22,4 @@ INVARIANT MemoSound
 INVARIANT NoGhostMemo
 PROPERTY ResSound
 VIEW OView
-INVARIANT PaletteDecided
 CHECK_DEADLOCK FALSE
